@@ -14,6 +14,7 @@ grep -q "rand::" $DIR/demo.rs && FEAT="--features rand"
 ( cd $WT && cargo run --offline $FEAT --example mutdemo >/tmp/confirm_$$.a 2>&1 ); A=$?
 ( cd $WT && git apply $DIR/patch.diff ) || { echo "PATCH DOES NOT APPLY"; git -C /repo worktree remove --force $WT; exit 2; }
 ( cd $WT && cargo run --offline $FEAT --example mutdemo >/tmp/confirm_$$.b 2>&1 ); B=$?
+rm -f $WT/examples/mutdemo.rs
 ( cd $WT && cargo test --workspace --no-fail-fast --offline >/tmp/confirm_$$.t 2>&1 ); T=$?
 FAILS=$(grep -c "^test result: FAILED\|test result: FAILED" /tmp/confirm_$$.t)
 echo "confirm: demo_without=$A demo_with=$B tests_rc=$T failed_suites=$FAILS"
